@@ -515,3 +515,180 @@ Proof.
       rewrite firstn_length in E. destruct vb as [|v vb']; [congruence|]. cbn [length] in *. lia.
     + subst c. lia.
 Qed.
+
+(** * The boolean checker reflects the specification *)
+Lemma component_b_spec n : component_b n = true <-> component n.
+Proof.
+  unfold component_b, component. rewrite !andb_true_iff, !negb_true_iff. split.
+  - intros [[A B] C]. split; [|split].
+    + intros H. apply mem_In in H. congruence.
+    + intros ->. simpl in B. discriminate.
+    + intros ->. simpl in C. discriminate.
+  - intros [A [B C]]. split; [split|].
+    + destruct (mem SLASH n) eqn:E; [apply mem_In in E; contradiction|reflexivity].
+    + destruct (bytes_eqb n [DOT]) eqn:E; [apply bytes_eqb_eq in E; contradiction|reflexivity].
+    + destruct (bytes_eqb n [DOT; DOT]) eqn:E; [apply bytes_eqb_eq in E; contradiction|reflexivity].
+Qed.
+
+Lemma confined_b_spec ps : confined_b ps = true <-> confined ps.
+Proof.
+  unfold confined_b, confined. rewrite forallb_forall, Forall_forall.
+  split; intros H p Hp; apply component_b_spec; auto.
+Qed.
+
+Lemma present_b_spec e : present_b e = true <-> present e.
+Proof. destruct e; simpl; try tauto; try (split; [discriminate|contradiction]). apply N.eqb_eq. Qed.
+
+Lemma dir_hard_b_spec e : dir_hard_b e = true <-> dir_hard e.
+Proof.
+  destruct e as [| | |c]; simpl; try (split; [discriminate|contradiction]).
+  rewrite !andb_true_iff, !negb_true_iff, !N.eqb_neq. tauto.
+Qed.
+Lemma qm_hard_b_spec e : qm_hard_b e = true <-> qm_hard e.
+Proof.
+  destruct e as [| | |c]; simpl; try (split; [discriminate|contradiction]).
+  rewrite !andb_true_iff, !negb_true_iff, !N.eqb_neq. tauto.
+Qed.
+Lemma is_dir_b_spec e : is_dir_b e = true <-> e = EDir.
+Proof. destruct e; simpl; split; congruence. Qed.
+
+Lemma dash_prefixes_spec : forall rest pre p,
+  In p (dash_prefixes pre rest) <-> exists mid post, rest = mid ++ DASH :: post /\ p = pre ++ mid.
+Proof.
+  induction rest as [|b rest IH]; intros pre p; simpl.
+  - split; [contradiction|]. intros [mid [post [E _]]]. destruct mid; discriminate.
+  - rewrite in_app_iff, IH. split.
+    + intros [H|[mid [post [E ->]]]].
+      * destruct (N.eqb b DASH) eqn:Eb; [|contradiction]. apply N.eqb_eq in Eb. destruct H as [<-|[]].
+        exists [], rest. subst b. split; [reflexivity|now rewrite app_nil_r].
+      * exists (b :: mid), post. split; [now rewrite E|now rewrite <- app_assoc].
+    + intros [mid [post [E ->]]]. destruct mid as [|m mid]; simpl in E.
+      * injection E as -> ->. left. rewrite N.eqb_refl. left. now rewrite app_nil_r.
+      * injection E as -> ->. right. exists mid, post. split; [reflexivity|now rewrite <- app_assoc].
+Qed.
+
+Lemma form_prefix_b_spec fs local : form_prefix_b fs local = true <-> form_prefix fs local.
+Proof.
+  unfold form_prefix_b, form_prefix. rewrite existsb_exists. split.
+  - intros [p [Hin P]]. apply dash_prefixes_spec in Hin as [mid [post [E ->]]]. exists mid, post.
+    split; [exact E|]. now apply present_b_spec.
+  - intros [pre [post [E P]]]. exists pre. split; [|now apply present_b_spec].
+    apply dash_prefixes_spec. exists pre, post. now split.
+Qed.
+
+Lemma bounces_b_spec fs vb : bounces_b fs vb = true <-> bounces fs vb.
+Proof.
+  unfold bounces_b, bounces. destruct vb as [b|]; [|split; [discriminate|contradiction]].
+  destruct (fs (QMAIL ++ DEFAULT)); try (split; [discriminate|contradiction]). apply bytes_eqb_eq.
+Qed.
+
+Lemma form_catchall_b_spec fs vb : form_catchall_b fs vb = true <-> form_catchall fs vb.
+Proof.
+  unfold form_catchall_b, form_catchall. rewrite andb_true_iff, negb_true_iff, present_b_spec.
+  split; intros [A B]; split; try exact A.
+  - rewrite <- bounces_b_spec. congruence.
+  - destruct (bounces_b fs vb) eqn:E; [apply bounces_b_spec in E; contradiction|reflexivity].
+Qed.
+
+Lemma forms1_b_spec fs local :
+  forms1_b fs local = true <-> form_dir fs local \/ form_qmail fs local \/ form_qmail_default fs local.
+Proof.
+  unfold forms1_b, form_dir, form_qmail, form_qmail_default.
+  rewrite !orb_true_iff, is_dir_b_spec, !present_b_spec. tauto.
+Qed.
+
+Lemma mailbox_b_spec fs vb local : mailbox_b fs vb local = true <-> mailbox fs vb local.
+Proof.
+  unfold mailbox_b, mailbox. rewrite andb_true_iff, !orb_true_iff, component_b_spec, forms1_b_spec,
+    form_prefix_b_spec, form_catchall_b_spec. tauto.
+Qed.
+
+Lemma io_error_b_spec fs vb local : io_error_b fs vb local = true <-> io_error fs vb local.
+Proof.
+  unfold io_error_b, io_error. rewrite !orb_true_iff, andb_true_iff, Nat.leb_le, dir_hard_b_spec, !qm_hard_b_spec,
+    is_dir_b_spec, existsb_exists.
+  assert (X : (exists p, In p (dash_prefixes [] local) /\ qm_hard_b (fs (QMAIL ++ colons p ++ DASHDEFAULT)) = true)
+              <-> (exists pre post, local = pre ++ DASH :: post /\ qm_hard (fs (QMAIL ++ colons pre ++ DASHDEFAULT)))).
+  { split.
+    - intros [p [Hin P]]. apply dash_prefixes_spec in Hin as [mid [post [E ->]]]. exists mid, post.
+      split; [exact E|]. now apply qm_hard_b_spec.
+    - intros [pre [post [E P]]]. exists pre. split; [|now apply qm_hard_b_spec].
+      apply dash_prefixes_spec. exists pre, post. now split. }
+  rewrite X.
+  assert (Y : (match vb with Some _ => true | None => false end = true) <-> vb <> None).
+  { destruct vb; split; congruence. }
+  rewrite Y. tauto.
+Qed.
+
+Lemma if_false {A} (a b : A) : (if false then a else b) = b. Proof. reflexivity. Qed.
+Lemma if_true {A} (a b : A) : (if true then a else b) = a. Proof. reflexivity. Qed.
+
+(** What a verdict "ok" of the checker on an observation (rc, conf, probes) means, for a domain with a record
+    whose path is a directory and a local part that is a path component: the observation is confined, no
+    configuration from the domain directory itself or from outside was taken for the user's, and rc is related
+    to the existence of the mailbox as in C13_exists. *)
+Theorem checker_sound db lay vbfile domain local z conf ps :
+  spec_ok_C13 db lay vbfile domain local z conf ps = true ->
+  confined ps /\ (conf = 0 \/ conf = 1)%N /\
+  (component local -> (length domain + 3 < VP_CDBKEY)%nat -> domain_state db domain = Some DomTree ->
+   let fs := fs_of_layout lay in let vb := vpopbounce_of vbfile in
+   (0 < z -> mailbox fs vb local /\ code_form fs vb local z) /\
+   (z = 0 -> ~ mailbox fs vb local) /\
+   (z < 0 -> io_error fs vb local)).
+Proof.
+  unfold spec_ok_C13. intros H. apply andb_true_iff in H as [H H3]. apply andb_true_iff in H as [H1 H2].
+  split; [now apply confined_b_spec|]. split; [apply N.leb_le in H2; lia|].
+  intros C L S. cbv zeta. apply component_b_spec in C. rewrite C in H3. simpl negb in H3.
+  match type of H3 with (if false then _ else ?B) = true => change (B = true) in H3 end.
+  assert (G : (VP_CDBKEY <=? length domain + 3)%nat = false) by (apply Nat.leb_gt; lia).
+  rewrite G, S in H3.
+  destruct (0 <? z) eqn:P.
+  - apply Z.ltb_lt in P. apply andb_true_iff in H3 as [H3 _]. apply andb_true_iff in H3 as [M K].
+    apply mailbox_b_spec in M. split; [|split; lia]. intros _. split; [exact M|]. unfold code_form.
+    destruct (z =? 1) eqn:E1; [apply Z.eqb_eq in E1; apply forms1_b_spec in K; tauto|].
+    destruct (z =? 4) eqn:E4; [apply Z.eqb_eq in E4; apply form_prefix_b_spec in K; tauto|].
+    destruct (z =? 2) eqn:E2; [apply Z.eqb_eq in E2; apply form_catchall_b_spec in K; tauto|discriminate].
+  - apply Z.ltb_ge in P. destruct (z =? 0) eqn:E0.
+    + apply Z.eqb_eq in E0. split; [lia|]. split; [|lia]. intros _ M. apply mailbox_b_spec in M.
+      rewrite M in H3. discriminate.
+    + apply Z.eqb_neq in E0. split; [lia|]. split; [lia|]. intros _. now apply io_error_b_spec.
+Qed.
+
+(** The model's own observation always passes the checker (so a verdict "bad" on a C observation that equals
+    the model's cannot occur: disagreement with the model or a real violation is needed). *)
+Theorem model_passes_checker db lay vbfile domain local :
+  let o := user_exists db (fs_of_layout lay) (vpopbounce_of vbfile) domain local in
+  spec_ok_C13 db lay vbfile domain local (rc o) (conf_of o) (probes o) = true.
+Proof.
+  cbv zeta. set (fs := fs_of_layout lay). set (vb := vpopbounce_of vbfile).
+  pose proof (user_exists_confined db fs vb domain local) as [CF UD]. cbv zeta in CF, UD.
+  unfold spec_ok_C13. fold fs vb. apply confined_b_spec in CF. rewrite CF. rewrite andb_true_l.
+  assert (CO : (conf_of (user_exists db fs vb domain local) <=? 1)%N = true).
+  { unfold conf_of. destruct (userdir _); reflexivity. }
+  rewrite CO. rewrite andb_true_l.
+  unfold user_exists in *. destruct (refused local) eqn:R.
+  { apply refused_true in R. destruct (component_b local) eqn:C; [apply component_b_spec in C; contradiction|]. simpl negb.
+    match goal with |- (if true then ?B else _) = true => change (B = true) end. reflexivity. }
+  apply refused_false in R. pose proof R as C. apply component_b_spec in C. rewrite C. simpl negb.
+  match goal with |- (if false then _ else ?B) = true => change (B = true) end.
+  rewrite vget_dir_eq in *. destruct (VP_CDBKEY <=? length domain + 3)%nat eqn:G; [reflexivity|].
+  destruct (domain_state db domain) as [[| |]|] eqn:S; try reflexivity.
+  cbn [dom_errno] in *.
+  pose proof (in_domain_sound fs vb local) as [A [B E]]. cbv zeta in A, B, E.
+  set (o := in_domain fs vb local) in *.
+  destruct (0 <? rc o) eqn:P.
+  - apply Z.ltb_lt in P. specialize (A P). destruct (code_form_forms _ _ _ _ A) as [F _].
+    assert (M : mailbox fs vb local) by (split; assumption). apply mailbox_b_spec in M. rewrite M. rewrite andb_true_l.
+    assert (K : (if rc o =? 1 then forms1_b fs local else if rc o =? 4 then form_prefix_b fs local
+                 else if rc o =? 2 then form_catchall_b fs vb else false) = true).
+    { unfold code_form in A. destruct A as [[-> X]|[[-> X]|[-> X]]]; simpl.
+      - now apply forms1_b_spec. - now apply form_prefix_b_spec. - now apply form_catchall_b_spec. }
+    rewrite K. rewrite andb_true_l. unfold conf_of. destruct (userdir o) as [n|] eqn:U; [|reflexivity].
+    destruct (UD n eq_refl) as [-> [_ D]].
+    assert (R1 : rc o = 1). { unfold o, in_domain. rewrite D. simpl. apply rc_dir_eq. }
+    rewrite R1, D. reflexivity.
+  - apply Z.ltb_ge in P. destruct (rc o =? 0) eqn:E0.
+    + apply Z.eqb_eq in E0. specialize (B E0). destruct (mailbox_b fs vb local) eqn:M; [|reflexivity].
+      apply mailbox_b_spec in M. destruct M as [_ M]. contradiction.
+    + apply Z.eqb_neq in E0. apply io_error_b_spec. apply E. lia.
+Qed.
